@@ -19,6 +19,8 @@ HARNESSES = [
     {"name": "eviction", "fn": S + "VerifC07Eviction", "bounds": "store with 2^20 or 2^20-1 clients of which two are materialised (the least recently active one among them); arbitrary request from an unknown client", "replay_overlay": RO, "replay_timeout": 120, "replay_mem_gb": 12, "race_driver": "VerifC07RaceDriver"},
     {"name": "rank", "fn": S + "VerifC07Rank", "bounds": "record of <= 2 exchanges, arbitrary request", "replay_overlay": RO, "race_driver": "VerifC07RaceDriver"},
 ]
+HARNESSES.append({"name": "rankupdate3", "fn": S + "VerifC07RankUpdate3", "bounds": "record of <= 3 exchanges (one may be pending), arbitrary transmit-timestamp update", "replay_overlay": RO, "race_driver": "VerifC07RaceDriver", "cfg": {"unwind": {S + "handleRequest": 4, S + "updateTXTimestamp": 4, "container/heap.up": 4, "container/heap.down": 4}}})
+HARNESSES.append({"name": "rankupdate4", "fn": S + "VerifC07RankUpdate4", "bounds": "record of <= 4 exchanges", "replay_overlay": RO, "thorough_only": True, "race_driver": "VerifC07RaceDriver", "cfg": {"unwind": {S + "handleRequest": 5, S + "updateTXTimestamp": 5, "container/heap.up": 4, "container/heap.down": 4}}})
 ASSUMPTIONS = ["the 2^20 - 2 clients not involved in the operation are abstract: they only contribute to len(tss); the materialised least-recently-active client is the global minimum of the index (natively: real dummy entries with maximal keys)",
                "data-race freedom and equivalence to a sequential order are argued from the lock set: every access to tss / tssQ from the two operations happens with tssMu held (obligation on every access) and the mutex is released on exit; the Go memory model and runtime are trusted",
                "Time64FromTime summary (see C06)"]
